@@ -357,3 +357,36 @@ SPECS["C12"] = {
     "level_note": "the model encodes the documented transitions; operations whose result is undocumented (SetPointerToValue(nullptr), operator=(ValueType) on a live value, self-merge) are not generated",
     "assumptions": ["pointer targets outlive the values pointing at them and never hold pointers themselves (no cycles)"],
 }
+
+
+# ---------------------------------------------------------------------------------------------- C19
+def plan_c19(tier, seed):
+    if tier == "quick":
+        return checks("main", 6, 6000) + shards("main", "dw8", 2) + shards("main", "dw64", 1)
+    return (checks("main", 10, 120000) + checks("nohook_avx2", 2, 60000) + shards("main", "dw8", 2) + shards("main", "dw16", 1)
+            + shards("main", "dw32", 1) + shards("main", "dw64", 1))
+
+
+SPECS["C19"] = {
+    "builds": {
+        "main": Build("main", "harness/c19_bigint.cpp", extra=["-fsanitize=integer-divide-by-zero"]),
+        "nohook_avx2": Build("nohook_avx2", "harness/c19_bigint.cpp", hook=False, simd="avx2"),
+    },
+    "default_build": "main",
+    "plan": plan_c19,
+    "exhaustive_enums": ["dw8"],
+    "rule": ("(a) generated programs (1-100+ operations, two registers) on BigInt<W,bits> for W in {u8,u16,u32,u64} and widths 64..2048 (incl. 100 and 1000): "
+             "constructors, assignment from every scalar width, copy/move, += -= |= &= with every scalar width, Add/Subtract at a word index, Multiply, "
+             "Divide (+ remainder), shifts incl. 0 / word-1 / word / k*word / on zero, FindFirstBit/FindLastBit, all comparisons with a word, narrowing "
+             "conversions, Clear; operands biased to 0, 1, all-ones, single bits, word boundaries, top-bit divisors; only operations whose exact result "
+             "fits are generated; value, remainder, bit index and predicates compared with reference naturals after every step; "
+             "(b) DoubleSize<u8>::Multiply (all 2^16 pairs) and ::Divide (all 8.36M triples with high < divisor) exhaustively; 16/32/64-bit helpers on "
+             "boundary operands against unsigned __int128; non-trivial = program with >= 3 operations and a multi-word value, every helper tuple; distinct by entropy"),
+    "engine": "rapidcheck + complete enumeration",
+    "technique": "model-based property testing (rapidcheck) against reference arbitrary-precision naturals, plus complete enumeration of the 8-bit double-word helper",
+    "level_text": ("BigInt histories are compared after every operation with exact reference arithmetic written in the harness (self-checked against "
+                   "unsigned __int128); ASan/UBSan bounds catch walks outside the word array, zero-value shifts are probed in a forked child. The 8-bit "
+                   "double-word helper is enumerated completely. Sampling for histories, exhaustive for the 8-bit helper."),
+    "level_note": "reference naturals in the harness are validated at start-up against unsigned __int128",
+    "assumptions": ["bit scans are only generated for non-zero values (documented precondition of Platform::FindFirstBit/FindLastBit)"],
+}
